@@ -380,6 +380,34 @@ def gen_start_variants(app):
     else:
         c = copy.deepcopy(base); del c["hermes-client"]["datamodel"]["Users"]["hermesType"]
         bad("client-missing-hermesType", c, schema_ok=False)
+    # the same application started with its REAL plugins (sqlite datasource and bus, the
+    # ldapPasswordHash attribute plugin): each plugin validates its own settings block against
+    # its own schema, applies its defaults, and a violation is a configuration error too
+    def real(name, edit, good):
+        c = copy.deepcopy(base)
+        c["hermes"]["plugins"]["messagebus"]["sqlite"]["settings"]["uri"] = wd0 + "/realbus.sqlite"
+        if app == "server":
+            c["hermes"]["plugins"]["datasources"]["src"]["settings"] = {"uri": wd0 + "/src.sqlite"}
+        else:
+            c["hermes"]["plugins"]["messagebus"]["sqlite"]["settings"].pop("retention_in_days", None)   # a producer setting
+        edit(c)
+        f = dict(ok)
+        f["schema_ok"] = good
+        out.append(("real:" + name, c, f, appname))
+    plug = lambda c: c["hermes"]["plugins"]
+    real("all-settings", lambda c: None, True)
+    real("attribute-plugin-defaults", lambda c: plug(c)["attributes"].update({"ldapPasswordHash": {"settings": {}}}), True)
+    real("attribute-plugin-no-settings-block", lambda c: plug(c)["attributes"].update({"ldapPasswordHash": {}}), True)
+    real("attribute-plugin-bad-value", lambda c: plug(c)["attributes"].update(
+        {"ldapPasswordHash": {"settings": {"default_hash_types": ["NOPE"]}}}), False)
+    real("bus-settings-empty", lambda c: plug(c)["messagebus"]["sqlite"].update({"settings": {}}), False)
+    real("bus-uri-missing", lambda c: plug(c)["messagebus"]["sqlite"]["settings"].pop("uri"), False)
+    if app == "server":
+        real("bus-retention-missing", lambda c: plug(c)["messagebus"]["sqlite"]["settings"].pop("retention_in_days"), False)
+        real("bus-retention-0", lambda c: plug(c)["messagebus"]["sqlite"]["settings"].update({"retention_in_days": 0}), False)
+        real("datasource-settings-empty", lambda c: plug(c)["datasources"]["src"].update({"settings": {}}), False)
+    else:
+        real("consumer-unknown-setting", lambda c: plug(c)["messagebus"]["sqlite"]["settings"].update({"nope": 1}), False)
     return out
 
 
@@ -424,9 +452,23 @@ def run_start(variant, wd, app):
         __hermes__.logger = logging.getLogger(__hermes__.appname)
         try:
             c = H.HermesConfig(autoload=False, allowMultipleInstances=True)
-            c.load(loadplugins=False)
+            realplugins = name.startswith("real:")
+            c.load(loadplugins=realplugins)
             H.setup_logger(c["appname"])
             world = H.new_world()
+            if realplugins:
+                if app == "server":
+                    from server.hermesserver import HermesServer
+                    srv = HermesServer(c)
+                    if srv._sock is not None:
+                        srv._sock._cleanup()
+                else:
+                    import clidrv
+                    cl = clidrv.RecClient(c, {"bus": [], "next": 1, "calls": [], "ncall": 0})
+                    sock = getattr(cl, "_GenericClient__sock", None)
+                    if sock is not None:
+                        sock._cleanup()
+                return ("started",)
             if app == "server":
                 for s in c["hermes"]["plugins"]["datasources"]:
                     c["hermes"]["plugins"]["datasources"][s]["plugininstance"] = H.MemDS(s, world)
